@@ -23,6 +23,7 @@ from __future__ import annotations
 import json
 import uuid
 from abc import ABC, abstractmethod
+from copy import deepcopy
 from typing import TYPE_CHECKING, Any
 from warnings import warn
 
@@ -255,7 +256,7 @@ class BaseEMSurvey(ObjectBase, ABC):  # pylint: disable=too-many-public-methods
         # Copy metadata except reference to entities UUID
         for key, value in self.metadata["EM Dataset"].items():
             if not isinstance(value, (uuid.UUID, type(None))):
-                new_entity.edit_em_metadata({key: value})
+                new_entity.edit_em_metadata({key: deepcopy(value)})
 
         if self.complement is not None:
             self.copy_complement(
